@@ -46,10 +46,11 @@ def episodic(tier):
 
 @contextlib.contextmanager
 def facades(uses, budget=40):
-    if not S.symbolic():
-        yield
-        return
     trip = Tripwire('random', uses, private_budget=budget)
+    if not S.symbolic():
+        with patched((td, dict(random=trip)), (dd, dict(random=trip)), (dct, dict(random=trip))):
+            yield
+        return
     with M.facades(), patched((td, dict(random=trip, math=S.MATH)), (dd, dict(random=trip, math=S.MATH)), (dct, dict(random=trip)), (sm, dict(math=S.MATH))):
         yield
 
